@@ -10,7 +10,7 @@ PROP_MODULES = ['TxV.Props.C15']
 AUDIT = 'Audit/C15.lean'
 ANCHORS = ['txtorcon/onion.py', 'txtorcon/torcontrolprotocol.py']
 RULE = ('real EphemeralOnionService.create() on the real protocol against the fake Tor: histories of HS_DESC UPLOAD / UPLOADED / FAILED events '
-        'over 1..4 directories for the service itself and for a second service sharing directories, in both waiting modes, with the ADD_ONION '
+        'over 1..4 directories for the service itself and for a second service sharing directories, in both waiting modes, with the control connection lost at a random position in some histories, with the ADD_ONION '
         'reply released before, between or after the events; after every input the state of the create() Deferred and the HS_DESC subscription '
         'are recorded. Quick: random histories; thorough: all orderings of per-directory event scripts for <= 3 directories. '
         'non-trivial = the wait fires or at least 3 own events; distinct = distinct (mode, history)')
@@ -44,7 +44,16 @@ class Impl:
 
     def do(self, op):
         if op[0] == 'reply':
-            self.st.release('ADD_ONION')
+            if not getattr(self, 'lost', False):
+                self.st.release('ADD_ONION')
+        elif op[0] == 'lost':
+            from twisted.internet import error
+            from twisted.python.failure import Failure
+            if not getattr(self, 'lost', False):
+                self.lost = True
+                self.st.proto.connectionLost(Failure(error.ConnectionLost()))
+        elif getattr(self, 'lost', False):
+            pass        # nothing can arrive on a lost connection
         else:
             _, kind, own, d = op
             addr = self.own if own else self.other
@@ -109,6 +118,9 @@ def gen_history(rng):
         rng.shuffle(evs)
     k = rng.choice([0, 0, 0, rng.randint(0, len(evs))])
     evs.insert(k, ['reply'])
+    if rng.random() < 0.15:
+        # the control connection is lost somewhere along the way (nothing arrives afterwards)
+        evs.insert(rng.randint(0, len(evs)), ['lost'])
     return evs
 
 
@@ -142,6 +154,8 @@ def in_h(c):
         if op[0] == 'reply':
             known = True
             continue
+        if op[0] == 'lost':
+            break           # nothing arrives after the loss
         _, kind, own, d = op
         if kind == 'upload' and own and known:
             att.add(d)
@@ -167,7 +181,7 @@ def run_cases(cases, drv, tier):
         for c in cases:
             ls = ['new %d' % (1 if c['await_all'] else 0)]
             for op in c['ops']:
-                ls.append('reply' if op[0] == 'reply' else 'ev %s %d %d' % (op[1], op[2], op[3]))
+                ls.append(op[0] if op[0] in ('reply', 'lost') else 'ev %s %d %d' % (op[1], op[2], op[3]))
             spans.append((len(lines), len(ls)))
             lines += ls
         outs = drv.run(lines)
@@ -184,8 +198,9 @@ def run_cases(cases, drv, tier):
                 spec.append(s.split(' '))
         fired = im and im[-1][0] != 'none'
         own_evs = sum(1 for op in c['ops'] if op[0] == 'ev' and op[2])
+        lost = any(op[0] == 'lost' for op in c['ops'])
         tags = ['all' if c['await_all'] else 'any', 'outcome=' + (im[-1][0] if im else 'none'),
-                'reply@%s' % ('start' if c['ops'] and c['ops'][0][0] == 'reply' else 'later'), 'H' if h else 'outsideH:' + why]
+                'reply@%s' % ('start' if c['ops'] and c['ops'][0][0] == 'reply' else 'later'), 'H' if h else 'outsideH:' + why] + (['connection-lost'] if lost else [])
         keep_spec = h or why == 'foreign-uploaded-shared-dir'
         res.append(Result(c, im, model, spec if keep_spec else None, in_h=h, nontrivial=bool(fired) or own_evs >= 3, tags=tags))
     return res
